@@ -184,9 +184,10 @@ func streamableHandler(w http.ResponseWriter, r *http.Request) {
 			w.WriteHeader(http.StatusAccepted)
 		case strings.HasPrefix(in.Method, "notifications/"):
 			w.WriteHeader(http.StatusAccepted)
-		case in.Method == "tools/list" && in.Params.Cursor == "next":
+		case in.Method == "tools/list" && (in.Params.Cursor == "next" || strings.HasPrefix(in.Params.Cursor, "re")):
+			// the next call, or a call a notification handler makes on its own client ("re<k>"): answered properly
 			w.Header().Set("Content-Type", "application/json")
-			io.WriteString(w, resultText(string(in.ID), "next"))
+			io.WriteString(w, resultText(string(in.ID), in.Params.Cursor))
 		case in.Method == "tools/list":
 			st.callArrived(in)
 			switch cs.C {
